@@ -35,9 +35,21 @@ func verifC53ID(k int) restic.ID {
 
 func verifC53File(name string) *data.Node {
 	n := &data.Node{Name: name, Type: data.NodeTypeFile}
-	var id restic.ID
-	id[0] = byte(verifrt.Int("content", 1, 2))
-	n.Content = restic.IDs{id}
+	// content: one of the blob lists [1], [2], [1,2], [2,1], [1,1] - lists that differ only in the
+	// order or the multiplicity of their blobs are different file contents
+	mk := func(k byte) restic.ID { var id restic.ID; id[0] = k; return id }
+	switch c := verifrt.Int("content", 1, 1+verifrt.Param("contents", 2)); {
+	case c == 1:
+		n.Content = restic.IDs{mk(1)}
+	case c == 2:
+		n.Content = restic.IDs{mk(2)}
+	case c == 3:
+		n.Content = restic.IDs{mk(1), mk(2)}
+	case c == 4:
+		n.Content = restic.IDs{mk(2), mk(1)}
+	default:
+		n.Content = restic.IDs{mk(1), mk(1)}
+	}
 	// one metadata field may differ: decides between "M" and "M?" (possible bitrot)
 	n.Inode = uint64(verifrt.Int("inode", 0, 1))
 	return n
@@ -221,7 +233,7 @@ func (e *verifC53Expect) diff(r *verifC53Repo, prefix string, t1, t2 []*data.Nod
 			if n1.Type != n2.Type {
 				mod = "T"
 			}
-			if n1.Type == data.NodeTypeFile && n2.Type == data.NodeTypeFile && n1.Content[0] != n2.Content[0] {
+			if n1.Type == data.NodeTypeFile && n2.Type == data.NodeTypeFile && !verifC53SameContent(n1.Content, n2.Content) {
 				mod += "M"
 				e.changed++
 				if n1.Inode == n2.Inode {
@@ -339,4 +351,48 @@ func VerifC53_Identical() {
 	verifrt.Assert(lines == 0, "identical trees produced diff output")
 	verifrt.Assert(stats.ChangedFiles == 0 && stats.Added == DiffStat{} && stats.Removed == DiffStat{}, "identical trees produced statistics")
 	verifrt.Reach("done")
+}
+
+func verifC53SameContent(a, b restic.IDs) bool {
+	if len(a) != len(b) {
+		return false
+	}
+	for i := range a {
+		if a[i] != b[i] {
+			return false
+		}
+	}
+	return true
+}
+
+// VerifC53_ContentLists: one file /a in both snapshots whose content is any of the blob lists [1], [2],
+// [1,2], [2,1], [1,1] on either side (lists that differ only in order or multiplicity are different
+// contents), metadata equal or not: exactly one line "M" / "M?" for /a iff the lists differ, "U" or
+// nothing otherwise; ChangedFiles counts it.
+func VerifC53_ContentLists() {
+	verifrt.Stub("internal/data.LoadTree", verifC53LoadTree)
+	verifrt.Stub("iter.Pull", verifC53Pull)
+	r := &verifC53Repo{}
+	f1, f2 := verifC53File("a"), verifC53File("a")
+	r.trees[verifC53Root1], r.have[verifC53Root1] = []*data.Node{f1}, true
+	r.trees[verifC53Root2], r.have[verifC53Root2] = []*data.Node{f2}, true
+	var mods []string
+	c := &Comparer{repo: r, printChange: func(ch *Change) {
+		verifrt.Assert(ch.Path == "/a", "a line for another path")
+		mods = append(mods, ch.Modifier)
+	}, printError: func(string, ...any) { verifrt.Assert(false, "diff reported an error") }}
+	stats := &DiffStatsContainer{BlobsBefore: &verifC53Set{}, BlobsAfter: &verifC53Set{}, BlobsCommon: &verifC53Set{}}
+	err := c.diffTree(context.Background(), stats, "/", verifC53ID(verifC53Root1), verifC53ID(verifC53Root2))
+	verifrt.Assert(err == nil, "diffTree failed")
+	if verifC53SameContent(f1.Content, f2.Content) {
+		verifrt.Reach("same-content")
+		for _, m := range mods {
+			verifrt.Assert(m != "M" && m != "M?", "a file with unchanged content is reported as modified")
+		}
+		verifrt.Assert(stats.ChangedFiles == 0, "ChangedFiles counts a file with unchanged content")
+		return
+	}
+	verifrt.Reach("different-content")
+	verifrt.Assert(len(mods) == 1 && (mods[0] == "M" || mods[0] == "M?"), "a file whose blob list changed (possibly only in order or multiplicity) is not reported as modified exactly once")
+	verifrt.Assert(stats.ChangedFiles == 1, "ChangedFiles does not count the modified file")
 }
